@@ -51,9 +51,9 @@ def plan(tier, seed):
     if tier == "quick":
         # small exhaustive ones first (they contain every known race window), the big one after them
         P.append((T(name="t2x1e", progs=[[1], [2]], nest={}, nest_at={}, gran="engine"), 2, 0.08, 0, True))
-        P.append((A(name="a2", progs=[[1, 2], [3]], nest={}, nest_at={}, yields={"on": 1, "after": 1}, split=[3], gaps=[0, 1]), 2, 0.06, 0, True))
+        P.append((A(name="a2", progs=[[1, 2], [3]], nest={}, nest_at={}, yields={"on": 1, "after": 1}, split=[3], gaps=[0, 1], attach=[1]), 2, 0.06, 0, True))
         P.append((T(name="t2x21n", progs=[[1, 2], [3]], nest={1: [7]}, nest_at={1: at()}, gran="engine"), 2, 0.12, 0, True))
-        P.append((A(name="a3n", progs=[[1], [2], [3]], nest={1: [7]}, nest_at={1: at()}, yields={**y(1), "on": 1}, split=[2], gaps=[0, 1, 2]), 2, 0.08, 0, True))
+        P.append((A(name="a3n", progs=[[1], [2], [3]], nest={1: [7]}, nest_at={1: at()}, yields={**y(1), "on": 1}, split=[2], gaps=[0, 1, 2], attach=[1, 2]), 2, 0.08, 0, True))
         P.append((T(name="t2x1", progs=[[1], [2]], nest={}, nest_at={}, gran="full"), 2, 0.20, 0, True))
         P.append((T(name="t2x2", progs=[[1, 2], [3, 4]], nest={3: [8]}, nest_at={3: at()}, gran="engine"), 2, 0.15, 300, False))
         P.append((T(name="t3x1", progs=[[1], [2], [3]], nest={}, nest_at={}, gran="engine"), 1, 0.06, 300, True))
@@ -68,7 +68,7 @@ def plan(tier, seed):
         P.append((T(name="t3x2", progs=[[1, 2], [3, 4], [5]], nest={3: [8]}, nest_at={3: at()}, gran="engine"), 2, 0.08, 3000, False))
         P.append((T(name="t4x1n", progs=[[1], [2], [3], [4]], nest={1: [7], 7: [8]}, nest_at={1: at(), 7: at()}, gran="engine"), 2, 0.08, 4000, False))
         P.append((T(name="t4x2", progs=[[1, 2], [3, 4], [5, 6], [7]], nest={}, nest_at={}, gran="engine"), 1, 0.04, 4000, False))
-        P.append((A(name="a2", progs=[[1, 2], [3, 4]], nest={1: [7]}, nest_at={1: at()}, yields=y(2), split=[3], gaps=[0, 1]), 3, 0.03, 0, True))
+        P.append((A(name="a2", progs=[[1, 2], [3, 4]], nest={1: [7]}, nest_at={1: at()}, yields=y(2), split=[3], gaps=[0, 1], attach=[1]), 3, 0.03, 0, True))
         P.append((A(name="a3n", progs=[[1, 2], [3], [4]], nest={1: [7], 3: [8]}, nest_at={1: at(), 3: at()}, yields={**y(2), "on": 2}, split=[3], gaps=[0, 1, 2]), 3, 0.04, 0, True))
         P.append((A(name="a4", progs=[[1, 2], [3, 4], [5, 6], [7]], nest={3: [8]}, nest_at={3: at()}, yields={**y(2), "after": 1}, split=[5, 7], gaps=[1, 0, 2, 1]), 3, 0.04, 3000, False))
         P.append((A(name="a4s", progs=[[1], [2], [3], [4]], nest={1: [7, 8]}, nest_at={1: at()}, yields=y(2), split=[2, 3, 4], gaps=[0, 2, 1, 0]), 3, 0.03, 2000, False))
